@@ -56,6 +56,46 @@ var leafrefCorpus = []string{
 	"../a[k = current()/../x]/b", "/a[k = 'x']/b", "a/b", "/a/..", "/a/b[k = current()/x]", "/*", "/a | /b", "deref(a)", "/xmla", "/a/b[k=current ( ) / .. / x ]",
 }
 
+// argValues: one value per character class a function body can treat specially (XPath white space,
+// other Unicode white space, control characters, multi-byte characters of every length, nothing).
+var argValues = []string{"", "a b", " a  b ", "\t\r\n", "a\u00a0b", "x\fy", "\v", "p\u0085q", "\u2028", "m\u3000 n", "é€𝄞", "a\u200db", "0", "-1.5e3", "\x00"}
+
+func fnValueInputs(quick bool) []string {
+	lit := func(v string) string { return "'" + v + "'" }
+	var out []string
+	vals := argValues
+	for _, f := range []string{"string", "normalize-space", "string-length", "number", "boolean", "not", "floor", "ceiling", "round"} {
+		for _, v := range vals {
+			out = append(out, f+"("+lit(v)+")")
+		}
+	}
+	for _, f := range []string{"concat", "contains", "starts-with", "substring-before", "substring-after", "re-match"} {
+		for _, v := range vals {
+			for _, w := range vals {
+				out = append(out, f+"("+lit(v)+", "+lit(w)+")")
+			}
+		}
+	}
+	third := vals
+	if quick {
+		third = []string{"", "x\fy", "é€𝄞"}
+	}
+	for _, v := range vals {
+		for _, w := range vals {
+			for _, x := range third {
+				out = append(out, "translate("+lit(v)+", "+lit(w)+", "+lit(x)+")")
+			}
+		}
+		for _, n1 := range []string{"0", "1", "2", "-1", "1.5", "0 div 0", "1 div 0", "-1 div 0"} {
+			out = append(out, "substring("+lit(v)+", "+n1+")")
+			for _, n2 := range []string{"0", "1", "3", "-1", "0 div 0", "1 div 0"} {
+				out = append(out, "substring("+lit(v)+", "+n1+", "+n2+")")
+			}
+		}
+	}
+	return out
+}
+
 type rec struct {
 	Grammar string `json:"grammar"`
 	ExprB64 string `json:"expr_quoted"` // strconv.Quote form
@@ -402,6 +442,17 @@ func run(c *engine.Ctx) {
 					doInput(src[:i] + s + src[i+1:])
 				}
 			}
+		}
+	}
+
+	// Part D: every core function on argument values of every character class (the loops inside the
+	// function bodies - normalize-space, translate, substring - must end on each of them)
+	for i, src := range fnValueInputs(c.Quick()) {
+		if c.Expired() {
+			return
+		}
+		if c.Owns(fmt.Sprintf("fv:%d", i)) {
+			doInput(src)
 		}
 	}
 
